@@ -509,8 +509,8 @@ pub fn worker_main(args: &[String]) {
         &|i| {
             let c = gen_case(a.seed, a.shard, i);
             let n = c.model.objects.len();
-            let dg = gen::digest_rdoc(&c.model);
-            (c.doc, n, c.label.split('/').take(2).collect::<Vec<_>>().join("/"), if n > 5000 { i } else { dg })
+            let dg = if n > 5000 { i } else { gen::digest_rdoc(&c.model) };
+            (c.doc, n, c.label.split('/').take(2).collect::<Vec<_>>().join("/"), dg)
         },
         &|d: &Document| run_queries(d),
     );
